@@ -230,6 +230,8 @@ def run(ctx):
     ctx.corr('REALPATH decision (_Match.match)', corr.corr_realpath(rng, [trees.DESIGNED[0], trees.DESIGNED[3], spec_link, spec_real], 150 if ctx.quick else 600))
     nfe = globcommon.frontends_equiv(ctx, rng)
     ctx.counted('dir_fd / iglob / pathlib / cloned matchers vs glob', nfe, nfe // 2, [{'pattern': 'vis/*'}])
+    nin_ = globcommon.inert_arguments(ctx, rng, 3 if ctx.quick else 6)
+    ctx.counted('arguments that cannot change the answer (inert exclude=, root spelling, NOUNIQUE)', nin_, nin_ // 2, [{'pattern': '**', 'exclude': 'zz-no-such-name*'}])
     return ctx.finish(RULE)
 
 
